@@ -35,7 +35,20 @@ def gen_case(case, formats=FORMATS, prop=ID):
     srcs = []
     mode = r.random()
     meta = {"mode": None}
-    if mode < 0.06:
+    if mode < 0.05:
+        # the encoder's overflow fallbacks: a copy 40-80x smaller than its donor under a gradient that is huge
+        # relative to the copy
+        from vf.checks import c06
+
+        meta["mode"] = "tiny-copy-big-gradient"
+        svgs, m = c06.tiny_copy_big_gradient_set(r, 1000)
+        meta.update(m)
+        srcs.extend(svgs)
+        cfg.pop("transform", None)
+        cfg["reuse_tolerance"] = 0.1
+        if cfg["upem"] < 1000 or cfg["upem"] > 2048:
+            cfg["upem"], cfg["ascender"], cfg["descender"] = 1024, 950, -250
+    elif mode < 0.1:
         meta["mode"] = "same-body-other-viewbox"
         srcs.extend(svggen.same_body_other_viewbox_set(r, r.randint(2, 4), pal=pal))
         if cfg.get("reuse_tolerance", 0.1) in (-1, 0.0) and r.random() < 0.7:
